@@ -1,18 +1,23 @@
+\* quick: 2 snaps, compact chains, one multi-snap change from two contexts (empty system; kept [1] and [1,2] with
+\* retain 2, so that the refresh of the second snap garbage-collects), both lane flavours, entry + backend faults
 SPECIFICATION Spec
 CONSTANTS
     Snaps <- Two
     SnapOrder <- Order2
     MaxRev = 3
-    MaxOps = 3
-    MaxTasks = 45
+    MaxOps = 1
+    MaxTasks = 30
     MaxFaults = 1
     KindOpts <- KAll
     TxnOpts <- BoolFT
     SelSizes <- Sz2
     InstallRevs <- Rev1
-    RefreshRevs <- Rev23
+    RefreshRevs <- Rev3
     RetainInit <- Ret2
+    InitCtx <- CtxQuick2
     OpFaults = TRUE
+    Compact = TRUE
+    Reduce = TRUE
 INVARIANTS
     TypeOK
     FailedSnapRestored
